@@ -68,7 +68,7 @@ def parse_registry():
                 k, v = m.group(1), m.group(2).strip()
                 if k == "harness":
                     cur = {"name": v, "file": fn, "props": [], "tier": "quick", "timeout": 600,
-                           "mem": 12, "functions": "", "bounds": "", "stubs": "none", "assumes": "none",
+                           "mem": 12, "rss": 0, "functions": "", "bounds": "", "stubs": "none", "assumes": "none",
                            "cut": "", "flags": "", "kind": "core", "witness": "", "sub": "", "cfg": "",
                            "replay": "playback", "fs": "1024", "modpath": "", "bodyfile": ""}
                     reg.append(cur)
@@ -77,7 +77,7 @@ def parse_registry():
                         cur["props"] = v.split()
                     elif k == "unwind_is_property":
                         cur[k] = True
-                    elif k in ("timeout", "mem"):
+                    elif k in ("timeout", "mem", "rss"):
                         cur[k] = int(v)
                     elif k in cur and isinstance(cur[k], str) and cur[k] and k not in ("tier", "kind", "stubs", "assumes", "replay", "fs", "modpath", "bodyfile"):
                         cur[k] += " " + v
@@ -183,7 +183,8 @@ def run_cmd(cmd, cwd, logpath, timeout, mem_gb, env=None):
     e.pop("RUSTUP_TOOLCHAIN", None)
     if env:
         e.update(env)
-    shcmd = "ulimit -s unlimited 2>/dev/null; ulimit -v %d; exec %s" % (mem_gb * 1024 * 1024, " ".join("'%s'" % c.replace("'", "'\\''") for c in cmd))
+    timer = "/usr/bin/time -f 'VERIF_MAXRSS_KB %M' " if os.path.exists("/usr/bin/time") else ""
+    shcmd = "ulimit -s unlimited 2>/dev/null; ulimit -v %d; exec %s%s" % (mem_gb * 1024 * 1024, timer, " ".join("'%s'" % c.replace("'", "'\\''") for c in cmd))
     t0 = time.time()
     with open(logpath, "w") as lf:
         p = subprocess.Popen(["bash", "-c", shcmd], cwd=cwd, stdout=lf, stderr=subprocess.STDOUT, env=e,
@@ -206,6 +207,8 @@ def parse_kani_log(text):
     m = re.search(r"VERIFICATION:- (SUCCESSFUL|FAILED)", text)
     if m:
         r["status"] = m.group(1)
+    m = re.search(r"VERIF_MAXRSS_KB (\d+)", text)
+    r["max_rss_mb"] = int(m.group(1)) // 1024 if m else None
     m = re.search(r"\*\* (\d+) of (\d+) failed", text)
     if m:
         r["checks_failed"], r["checks_total"] = int(m.group(1)), int(m.group(2))
@@ -534,7 +537,9 @@ def main():
         results = []
 
         def work(h):
-            need = min(h["mem"], 52)
+            # reservation = the harness's measured peak (@rss, GB, with margin) when registered, else min(cap, 10 GB);
+            # the cap (@mem) stays the ulimit -v of the run, so an under-estimate cannot turn into a spurious failure
+            need = min(h["rss"] or min(h["mem"], 10), 52)
             with mem_cv:  # all-or-nothing reservation (unit-by-unit acquisition can deadlock two workers)
                 while mem_free[0] < need:
                     mem_cv.wait()
@@ -547,8 +552,8 @@ def main():
                 with mem_cv:
                     mem_free[0] += need
                     mem_cv.notify_all()
-            log("  [%s] %-44s %-12s wall=%ss solver=%ss vccs=%s %s" % (
-                a.prop, h["name"], r["verdict"], r.get("wall_s"), r.get("solver_s"), r.get("vccs"),
+            log("  [%s] %-44s %-12s wall=%ss solver=%ss vccs=%s rss=%sMB %s" % (
+                a.prop, h["name"], r["verdict"], r.get("wall_s"), r.get("solver_s"), r.get("vccs"), r.get("max_rss_mb"),
                 r.get("reason", "")))
             return r
 
@@ -642,6 +647,7 @@ def write_evidence(prop, tier, seed, sel, results, wall, nviol, known_hits, inco
             "vccs_generated": r.get("vccs"), "vccs_after_simplification": r.get("vccs_remaining"),
             "symex_steps": r.get("steps"), "sat_variables": r.get("variables"), "sat_clauses": r.get("clauses"),
             "symex_s": r.get("symex_s"), "solver_s": r.get("solver_s"), "wall_s": r.get("wall_s"),
+            "max_rss_mb": r.get("max_rss_mb"), "memory_cap_gb": h["mem"],
             "stubs_applied_by_kani": r.get("stubs_applied"), "reason": r.get("reason"),
             "failed_checks": r.get("failed_real"), "replay": r.get("replay"),
         })
